@@ -112,15 +112,10 @@ def clip_rule(F, R):
         R.ob('RG-clip', name, ok, 'every reported value is %s the clip' % ('>=' if direction == 'ge' else '<=') if ok else detail, v.file)
 
 
-def pfe_rule(F, R, tier):
-    """|PFE ratio| <= 1 by the triangle inequality needs: the ratio is sqrt(dx² + H²) / Σ sqrt(d_i² + 1) where the segments d_i
-    telescope to dx and H equals the number of segments. Decided with symbolic window values for concrete N."""
+def pfe_decompose(F, v, m, Ns):
+    """For each N: ('ok', N, DX, H, segs, unit) with the ratio sqrt(DX² + H²) / Σ sqrt(seg² + c) evaluated over symbolic window
+    values q0..q(N−1) (oldest first), or ('shape', why). DX and the segments are linear forms over the window values."""
     from .lti import LinEval, Form, NonConst
-    v = view_by_name(F).get('PolarizedFractalEfficiency')
-    if v is None:
-        R.violation('RG-pfe', 'PolarizedFractalEfficiency', 'not found')
-        return
-    m = model(F, v)
     fed = None
     for cp, feeds in m.up_vg.child_fed.items():
         for pc, arg, node in feeds:
@@ -133,21 +128,19 @@ def pfe_rule(F, R, tier):
                 ratio = x
                 break
     if ratio is None:
-        R.violation('RG-pfe', 'PolarizedFractalEfficiency:shape', 'the value fed to the moving average is not sqrt(dx² + H²) / Σ sqrt(d² + 1)', v.file)
+        yield ('noratio',)
         return
     num_arg = ratio[2][0][2][0]
     den = ratio[2][1]
     from .e_trend import window_names
     QN_, PN_ = window_names(F, v)
-    probs = set()
-    checked = 0
-    for N in range(3, (10 if tier == 'quick' else 33)):
+    for N in Ns:
         st = {QN_: [Form({'q%d' % j: 1.0}) for j in range(N)], PN_: N}
         ev = LinEval(st, m.up_vg.loops)
         # numerator: powi(DX, 2) + powi(H, 2)
         if not (num_arg[0] == 'op' and num_arg[1] == 'add'):
-            probs.add('shape')
-            break
+            yield ('shape',)
+            return
         DX = H = None
         for part in num_arg[2]:
             if part[0] == 'op' and part[1] == 'powi':
@@ -161,8 +154,8 @@ def pfe_rule(F, R, tier):
                     DX = f
         folds = [x for x in subterms(den) if x[0] == 'fold']
         if DX is None or H is None or not folds:
-            probs.add('shape')
-            break
+            yield ('shape',)
+            return
         fd = folds[0]
         L, key, nxt = fd[1], fd[2], fd[4]
         segs = []
@@ -170,8 +163,8 @@ def pfe_rule(F, R, tier):
         try:
             idxs = ev.indices(L)
         except NonConst:
-            probs.add('shape')
-            break
+            yield ('shape',)
+            return
         # all loop-carried variables advance together (the walk may keep the previous element in a second variable)
         carried_ = (m.up_vg.loops.get(L) or {}).get('carried', {})
         cur_ = {}
@@ -179,8 +172,9 @@ def pfe_rule(F, R, tier):
             for kk, (i0, n0) in carried_.items():
                 cur_[kk] = Form({'acc': 1.0}) if kk == key else ev.ev(i0)
         except NonConst:
-            probs.add('shape')
-            break
+            yield ('shape',)
+            return
+        failed = False
         for i in idxs:
             ev.idx[L] = i
             for kk in carried_:
@@ -189,7 +183,7 @@ def pfe_rule(F, R, tier):
             try:
                 nxt_vals = {kk: (ev.ev(n0) if (n0 is not None and kk != key) else cur_[kk]) for kk, (i0, n0) in carried_.items()}
             except NonConst:
-                probs.add('shape')
+                failed = True
                 break
             for y in subterms(nxt):
                 if y[0] == 'op' and y[1] == 'sqrt':
@@ -209,6 +203,31 @@ def pfe_rule(F, R, tier):
         ev.idx.pop(L, None)
         for kk in list(carried_) + [key]:
             ev.mu.pop((L, kk), None)
+        if failed:
+            yield ('shape',)
+            return
+        yield ('ok', N, DX, H, segs, unit)
+
+
+def pfe_rule(F, R, tier):
+    """|PFE ratio| <= 1 by the triangle inequality needs: the ratio is sqrt(dx² + H²) / Σ sqrt(d_i² + 1) where the segments d_i
+    telescope to dx and H equals the number of segments. Decided with symbolic window values for concrete N."""
+    from .lti import Form
+    v = view_by_name(F).get('PolarizedFractalEfficiency')
+    if v is None:
+        R.violation('RG-pfe', 'PolarizedFractalEfficiency', 'not found')
+        return
+    m = model(F, v)
+    probs = set()
+    checked = 0
+    for rec in pfe_decompose(F, v, m, range(3, (10 if tier == 'quick' else 33))):
+        if rec[0] == 'noratio':
+            R.violation('RG-pfe', 'PolarizedFractalEfficiency:shape', 'the value fed to the moving average is not sqrt(dx² + H²) / Σ sqrt(d² + 1)', v.file)
+            return
+        if rec[0] == 'shape':
+            probs.add('shape')
+            break
+        _, N, DX, H, segs, unit = rec
         checked += 1
         total = Form()
         for sgm in segs:
@@ -229,6 +248,40 @@ def pfe_rule(F, R, tier):
         R.violation('RG-pfe', 'PolarizedFractalEfficiency:' + pr, msg, v.file)
     R.ob('RG-pfe', 'PolarizedFractalEfficiency', not probs and checked > 0, '|ratio| <= 1 by the triangle inequality: extent = number of unit segments and the segments span dx (N = 3..%d)' % (9 if tier == 'quick' else 32)
          if not probs else 'see the specific RG-pfe findings', v.file) if not probs else None
+
+
+def pfe_statement_rule(F, R, tier):
+    """C11: the value fed to the moving average is sqrt((x_t − x_(t−N+1))² + N²) / Σ sqrt(d² + 1) over the window's N−2 most
+    recent steps (d = x_(t−i) − x_(t−i−1), i = 0..N−3). Decided with symbolic window values for concrete N."""
+    from .lti import Form
+    v = view_by_name(F).get('PolarizedFractalEfficiency')
+    if v is None:
+        return
+    m = model(F, v)
+    bad = []
+    checked = 0
+    for rec in pfe_decompose(F, v, m, range(3, (13 if tier == 'quick' else 40))):
+        if rec[0] != 'ok':
+            bad.append('the value fed to the moving average is not of the form sqrt(dx² + H²) / Σ sqrt(d² + 1)')
+            break
+        _, N, DX, H, segs, unit = rec
+        checked += 1
+        clean = lambda f: tuple(sorted((a, round(c, 12)) for a, c in f.items() if abs(c) > 1e-12))
+        # the window after this update, oldest first: q1 .. q(N−1) (entry values, the oldest one evicted) and the current value u
+        w = ['q%d' % (j + 1) for j in range(N - 1)] + ['u']
+        want_dx = clean(Form({w[N - 1]: 1.0, w[0]: -1.0}))
+        want_segs = sorted(clean(Form({w[N - 1 - i]: 1.0, w[N - 2 - i]: -1.0})) for i in range(N - 2))
+        if clean(DX) != want_dx:
+            bad.append('N=%d: the numerator spans %s, not x_t − x_(t−N+1)' % (N, dict(clean(DX))))
+        elif abs(H - N) > 1e-9:
+            bad.append('N=%d: the horizontal extent under the numerator root is %g, not N' % (N, H))
+        elif not unit:
+            bad.append('N=%d: a path segment is not sqrt(d² + 1)' % N)
+        elif sorted(clean(sg) for sg in segs if isinstance(sg, Form)) != want_segs or len(segs) != N - 2:
+            bad.append('N=%d: the path length sums %d segments %s, not the N−2 most recent steps' % (N, len(segs), [dict(clean(sg)) for sg in segs if isinstance(sg, Form)][:3]))
+    R.ob('K7-pfe-ratio', 'PolarizedFractalEfficiency', not bad and checked > 0,
+         'ratio = sqrt((x_t − x_(t−N+1))² + N²) / Σ sqrt(d² + 1) over the N−2 most recent steps (%d window lengths, symbolic window values)' % checked
+         if not bad and checked > 0 else (bad[0] if bad else 'nothing analysed'), v.file)
 
 
 def run_c07(F, R, tier):
